@@ -966,8 +966,11 @@ func (sc *segmentController[T, O]) load(ctx context.Context, start, end time.Tim
 }
 
 func (sc *segmentController[T, O]) remove(deadline time.Time) (hasSegment bool, err error) {
-	ss, _ := sc.segments(context.Background(), false)
-	for _, s := range ss {
+	// Scan a plain copy of the list: segments(false) pins only the segments that
+	// are in use at that moment, so releasing every scanned segment afterwards
+	// would drop a reference that a reader or writer acquired in between.
+	// delete() needs no pin: it defers to the last DecRef while the segment is held.
+	for _, s := range sc.copySegments() {
 		if s.Before(deadline) {
 			hasSegment = true
 			id := s.id
@@ -977,7 +980,6 @@ func (sc *segmentController[T, O]) remove(deadline time.Time) (hasSegment bool, 
 			sc.Unlock()
 			sc.l.Info().Stringer("segment", s).Msg("removed a segment")
 		}
-		s.DecRef()
 	}
 	return hasSegment, err
 }
@@ -999,15 +1001,15 @@ func (sc *segmentController[T, O]) getExpiredSegmentsTimeRange() *timestamp.Time
 		IncludeStart: true,
 		IncludeEnd:   false,
 	}
-	ss, _ := sc.segments(context.Background(), false)
-	for _, s := range ss {
+	// Only the immutable time ranges are read, so no segment has to be pinned
+	// (see remove for why an unconditional DecRef here would steal references).
+	for _, s := range sc.copySegments() {
 		if s.Before(deadline) {
 			if timeRange.Start.IsZero() {
 				timeRange.Start = s.Start
 			}
 			timeRange.End = s.End
 		}
-		s.DecRef()
 	}
 	return timeRange
 }
@@ -1016,7 +1018,8 @@ func (sc *segmentController[T, O]) deleteExpiredSegments(segmentSuffixes []strin
 	ttl := sc.getTTL()
 	deadline := sc.clock.Now().Local().Add(-ttl.estimatedDuration())
 	var count int64
-	ss, _ := sc.segments(context.Background(), false)
+	// See remove: scan without pinning, never release a reference not acquired here.
+	ss := sc.copySegments()
 	sc.l.Info().Str("segment_suffixes", fmt.Sprintf("%s", segmentSuffixes)).
 		Str("ttl", fmt.Sprintf("%d(%s)", ttl.Num, ttl.Unit)).
 		Str("deadline", deadline.String()).
@@ -1044,7 +1047,6 @@ func (sc *segmentController[T, O]) deleteExpiredSegments(segmentSuffixes []strin
 				Str("segment_time_range", s.GetTimeRange().String()).
 				Msg("segment is not expired or not in the time range, skipping deletion")
 		}
-		s.DecRef()
 	}
 	return count
 }
